@@ -72,3 +72,5 @@ func reserSafe(m *proto.Message) (out []byte) {
 	}
 	return b
 }
+
+func newParserOver(r io.Reader) *proto.Parser { return proto.NewParserWithReader(r) }
